@@ -275,9 +275,11 @@ def execute(ctx):
                 reqs.append(r)
                 outstanding['r'].setdefault(mi, []).append(r)
                 r.issued = True
-                r.offline = cf.link is None
+                r.offline = cf.link is None or st.get('td_start') is not None     # (driver close has begun)
                 dbg.append('%.4f issue r mem %d addr %d len %d' % (sim.now, mi, op['addr'], op['len']))
                 acc = cf.mem.read(mem, op['addr'], op['len'])
+                if st.get('td_start') is not None:
+                    r.offline = True         # the call overlapped the tear-down of the link
                 if acc is False:
                     r.accepted = False
                     outstanding['r'][mi].remove(r)
@@ -304,11 +306,13 @@ def execute(ctx):
                     for i in range(a, a + n):
                         unknown[mi][i] = 1          # in flight: old or new
                     r.issued = True
-                    r.offline = cf.link is None
+                    r.offline = cf.link is None or st.get('td_start') is not None     # (driver close has begun)
                     dbg.append('%.4f issue w mem %d addr %d len %d flush %s' % (sim.now, mi, wq['addr'], len(data),
                                                                               wq['flush']))
                     prog = (lambda msg, pct: None) if wq['progress'] else None
                     cf.mem.write(mem, wq['addr'], list(data), flush_queue=wq['flush'], progress_cb=prog)
+                    if st.get('td_start') is not None:
+                        r.offline = True     # the call overlapped the tear-down of the link
                     batch.append(r)
                 common.wait_until(sim, lambda: all(b.done or b.superseded for b in batch) or st.get('cut_done'),
                                   BOUND, 0.002)
@@ -400,6 +404,7 @@ def execute(ctx):
             st['session'] = 1
             for d in outstanding.values():
                 d.clear()
+            st.pop('td_start', None)
             cf.open_link('sim://cf')
             if not common.wait_until(sim, lambda: 'full' in got, 120.0, 0.01):
                 ctx.violation('6', 'reconnect-failed' + lock_tag(ctx), 'could not reconnect after %s' % (cut,))
